@@ -4,7 +4,9 @@ import PV.Driver.Util
 /-! driver for the socket family (C09, C10, C19 socket part).
 
 Ops (one answer line each):
-  `sys <name> <N | eERRNO> [d=<hex>] [sa=<hex>] [v=<int>] [l=<int>]`   append one native result to the script
+  `sys <name> <N | eERRNO> [d=<hex>] [sa=<hex>] [v=<int>] [l=<int>] [x=<int>]`   append one native result to the script
+  (`poll`: `v=` extra revents bits reported with the requested ones, `x=` revents given exactly; `setblk` / `setka` / `bind`'s reuse
+  flag take any C int, non-zero = TRUE)
   `new s fam type proto` · `newfd s fd` · `free s` · `initonce` · `reset`
   `bind s addr reuse` · `connect s addr` · `listen s` · `accept s newslot` · `recv s buflen [null]`
   `recvfrom s buflen want [null]` · `send s <hex|null> [buflen]` · `sendto s addr <hex|null> [buflen]`
@@ -12,9 +14,9 @@ Ops (one answer line each):
   `setbl s n` · `setto s n` · `local s` · `remote s`
   (addr = `null` or the sockaddr in hex)
 
-Answer of a call: `r=… e=… d=… a=… iss=… left=… g=… n=… cx=… ns=…` (see `fmtLine`); the script left
+Answer of a call: `r=… e=… d=… a=… iss=… left=… g=… n=… cx=… ns=… sw=…` (see `fmtLine`); the script left
 over after a call is dropped.  After `exhausted` / `mismatch` / `fault` every op answers `dead` until `reset`.
-When the spec (mode record of `PV.Spec.Socket`, close-on-exec, MSG_NOSIGNAL) says otherwise the line is
+When the spec (mode record of `PV.Spec.Socket`, close-on-exec, MSG_NOSIGNAL, no swallowed hard error `sw=-`) says otherwise the line is
 followed by ` SPECDIFF <spec line>`. -/
 namespace PV.Driver.Socket
 open PV.Socket PV.Driver PV.Generated.Socket
@@ -54,6 +56,8 @@ def parseExtras (r : Res) : List String → Option Res
     else if t.startsWith "sa=" then (bytesOfHex (t.drop 3).toString).bind fun b => parseExtras { r with sa := b } ts
     else if t.startsWith "v=" then (parseInt (t.drop 2).toString).bind fun v => parseExtras { r with val := v } ts
     else if t.startsWith "l=" then (parseInt (t.drop 2).toString).bind fun v => parseExtras { r with len := v } ts
+    -- `x=`: revents reported by poll, given exactly; the library (and so the model) looks at poll's return value only
+    else if t.startsWith "x=" then (parseInt (t.drop 2).toString).bind fun _ => parseExtras r ts
     else none
 
 def parseAddr (s : String) : Option Addr :=
@@ -61,6 +65,12 @@ def parseAddr (s : String) : Option Addr :=
 
 def parseBool : String → Option Bool
   | "0" => some false | "1" => some true | _ => none
+
+/-- a `pboolean` argument given as any C int: every non-zero value means TRUE -/
+def parsePBool (s : String) : Option Bool :=
+  match parseInt s with
+  | some n => if n < -2147483648 ∨ n > 2147483647 then none else some (n ≠ 0)
+  | none => none
 
 def hexOrDash (b : Bytes) : String := if b.isEmpty then "-" else hexOfBytes b
 
@@ -109,6 +119,18 @@ def allSendsNoSignal (tr : List Ev) : String :=
   let sends := tr.filterMap fun ev => match ev.call with | .send _ _ _ f _ => some f | _ => none
   if sends.isEmpty then "-" else if sends.all (fun f => f.toNat &&& MSG_NOSIGNAL.toNat ≠ 0) then "1" else "0"
 
+/-- direct oracle for "a call fails for a real reason": the first native failure of a data call / of the wait with a code other
+    than EINTR / EAGAIN after which further native calls were issued (the failure was swallowed) -/
+def swallowed : List Ev → String
+  | [] => "-"
+  | ev :: rest =>
+    let isData := match ev.call.sys with
+      | .recv | .recvfrom | .send | .sendto | .accept | .poll => true
+      | _ => false
+    match ev.res.ret with
+    | .err e => if isData && e != EINTR && e != EAGAIN && e != EWOULDBLOCK then (if rest.isEmpty then "-" else toString e) else swallowed rest
+    | .ok _ => swallowed rest
+
 structure Line where
   out  : Outcome
   tr   : List Ev
@@ -117,11 +139,12 @@ structure Line where
   n    : String
   cx   : String
   ns   : String
+  sw   : String := "-"
 
 def fmtLine (l : Line) : String :=
   let a := match l.out.addr with | none => "-" | some (sa, n) => s!"{n}:{hexOrDash sa}"
   let iss := if l.tr.isEmpty then "-" else ",".intercalate (l.tr.map fun ev => fmtIssued ev.call)
-  s!"r={l.out.ret} e={fmtErr l.out.err} d={hexOrDash l.out.data} a={a} iss={iss} left={l.left} g={l.g} n={l.n} cx={l.cx} ns={l.ns}"
+  s!"r={l.out.ret} e={fmtErr l.out.err} d={hexOrDash l.out.data} a={a} iss={iss} left={l.left} g={l.g} n={l.n} cx={l.cx} ns={l.ns} sw={l.sw}"
 
 def specGet (sp : List (Nat × Spec.Flags)) (slot : Nat) : Option Spec.Flags := (sp.find? (·.1 = slot)).map (·.2)
 def specSet (sp : List (Nat × Spec.Flags)) (slot : Nat) (f : Spec.Flags) := (slot, f) :: sp.filter (·.1 ≠ slot)
@@ -169,7 +192,7 @@ def doCall (st : DSt) (c : WCall) : IO (DSt × Bool) := do
       | none => "-"
     let ns := allSendsNoSignal r.tr
     let nsS := if ns = "0" then "1" else ns
-    let line := fmtLine { out := r.out, tr := r.tr, left := r.rest.length, g := g, n := n, cx := cx, ns := ns }
+    let line := fmtLine { out := r.out, tr := r.tr, left := r.rest.length, g := g, n := n, cx := cx, ns := ns, sw := swallowed r.tr }
     let lineS := fmtLine { out := r.out, tr := r.tr, left := r.rest.length, g := gS, n := nS, cx := cxS, ns := nsS }
     IO.println (if line = lineS then line else line ++ " SPECDIFF " ++ lineS)
     return ({ st with world := r.world, spec := sp, script := [] }, false)
@@ -200,7 +223,7 @@ def step (st : DSt) (toks : List String) : IO (DSt × Bool) := do
     | _, _ => bad st
   | ["free", s] => match nat s with | some s => doCall st (.free s) | none => bad st
   | ["bind", s, a, r] =>
-    match nat s, parseAddr a, parseBool r with
+    match nat s, parseAddr a, parsePBool r with
     | some s, some a, some r => doCall st (.on s (.bind a r))
     | _, _, _ => bad st
   | ["connect", s, a] =>
@@ -254,8 +277,8 @@ def step (st : DSt) (toks : List String) : IO (DSt × Bool) := do
     | _, _, _ => bad st
   | ["wait", s, c] => match nat s, parseInt c with | some s, some c => doCall st (.on s (.ioWait c)) | _, _ => bad st
   | ["chk", s] => match nat s with | some s => doCall st (.on s .checkConnectResult) | none => bad st
-  | ["setka", s, b] => match nat s, parseBool b with | some s, some b => doCall st (.on s (.setKeepalive b)) | _, _ => bad st
-  | ["setblk", s, b] => match nat s, parseBool b with | some s, some b => doCall st (.on s (.setBlocking b)) | _, _ => bad st
+  | ["setka", s, b] => match nat s, parsePBool b with | some s, some b => doCall st (.on s (.setKeepalive b)) | _, _ => bad st
+  | ["setblk", s, b] => match nat s, parsePBool b with | some s, some b => doCall st (.on s (.setBlocking b)) | _, _ => bad st
   | ["setbl", s, n] => match nat s, parseInt n with | some s, some n => doCall st (.on s (.setBacklog n)) | _, _ => bad st
   | ["setto", s, n] => match nat s, parseInt n with | some s, some n => doCall st (.on s (.setTimeout n)) | _, _ => bad st
   | ["local", s] => match nat s with | some s => doCall st (.on s .getLocal) | none => bad st
